@@ -11,9 +11,10 @@ stimuli
     out   stdout chunk "Bootstrapped 100% (done): Done"  (NOT a control-port report)
     err   stderr output
     cok / cfail, cok2 / cfail2   the pending control connection attempt succeeds / fails
-    own+ / own-   the held TAKEOWNERSHIP is answered 250 / 5xx
-    rst+ / rst-   the held RESETCONF __OwningControllerProcess is answered 250 / 5xx
-    plo / p100    650 STATUS_CLIENT NOTICE BOOTSTRAP PROGRESS=<n> / =100 from FakeTor
+    own+ / own- / own!   the held TAKEOWNERSHIP is answered 250 / 5xx / the control connection drops instead
+    rst+ / rst- / rst!   the same for the held RESETCONF __OwningControllerProcess
+    plo / p100    650 STATUS_CLIENT NOTICE BOOTSTRAP PROGRESS=<n> / =100 from FakeTor (on every live,
+                  subscribed control connection - each connection is its own FakeTor instance)
     tmo   the virtual clock passes the launch timeout
     exit0 / exit1 / sig   the process ends (code 0 / code 1 / signal), control link drops
 
@@ -46,7 +47,9 @@ TECHNIQUE = ("runtime monitoring: complete enumeration of causal stimulus permut
 LEVEL_TEXT = ("Held on the executions observed: every causally possible order of up to 6 (quick) / 7 (thorough) coarse "
               "stimuli, each with a temporary and with a caller-supplied data directory; the listener output split at 7 "
               "offsets in and around the phrase (quick) / at every byte offset (thorough) for every order of up to 4 "
-              "stimuli; when_connected() requested at every position; oracle evaluated after every stimulus, after the "
+              "stimuli; every order of up to 2 (quick) / 3 (thorough) further stimuli after a retried control connection "
+              "(first attempt refused, or rejected / dropped at TAKEOWNERSHIP or RESETCONF); ownership is judged per "
+              "connection (TAKEOWNERSHIP on the connection that reported 100%); when_connected() requested at every position; oracle evaluated after every stimulus, after the "
               "reactor's shutdown triggers and after a final forced process end. Enumeration is complete for the stated "
               "alphabet and bound only; configuration variants other than the data directory are rotated by the seed, "
               "not multiplied. Not a proof.")
@@ -57,9 +60,10 @@ LEVEL_NOTE = ("Trusted: vf.fakereactor (process/clock/connection doubles), vf.fa
               "end. ControlPort=0 (no control connection by design) is outside the model.")
 RULE = ("a case = (schedule, data-directory kind, configuration variant). Schedules are ALL sequences of length 1..N "
         "(N=6 quick, 7 thorough) over the stimulus alphabet (one atom per group: lst, lst2, out, err, cok|cfail, "
-        "cok2|cfail2, own+|own-, rst+|rst-, plo, p100, tmo, exit0|exit1|sig) that respect causality (connect outcome "
+        "cok2|cfail2, own+|own-|own!, rst+|rst-|rst!, plo, p100, tmo, exit0|exit1|sig) that respect causality (connect outcome "
         "only after the listener line, replies/events only after a successful connect, RESETCONF only after an accepted "
-        "TAKEOWNERSHIP, a retry only after failure + second listener line, nothing from a dead process). Distinct = "
+        "TAKEOWNERSHIP, a retry only after a refused connect or a first connection that failed at the ownership commands "
+        "(5xx, or dropped: own!/rst!) + second listener line, nothing from a dead process). Distinct = "
         "hash of the whole case. Non-trivial = launch() spawned the fake process and at least one stimulus was applied "
         "and judged.")
 ASSUMPTIONS = [
@@ -91,6 +95,7 @@ FLOORS = {
               "when_connected_outcomes_judged": 25000, "launch_success_judged": 500,
               "temp_dir_checks_after_exit": 2500, "caller_dir_checks": 15000,
               "timeouts_before_bootstrap_judged": 1500, "shutdown_firings": 3500, "split_listener_cases": 400,
+              "control_connections_retried": 80, "control_connections_dropped_mid_ownership": 600,
               "reach:txtorcon.controller:TorProcessProtocol._maybe_notify_connected": 6000,
               "reach:txtorcon.controller:TorProcessProtocol.when_connected": 25000,
               "reach:txtorcon.controller:TorProcessProtocol.processEnded": 3500,
@@ -102,7 +107,7 @@ FLOORS = {
                  "when_connected_outcomes_judged": 150000, "launch_success_judged": 4000,
                  "temp_dir_checks_after_exit": 20000, "caller_dir_checks": 100000,
                  "timeouts_before_bootstrap_judged": 10000, "shutdown_firings": 25000,
-                 "split_listener_cases": 10000,
+                 "split_listener_cases": 10000, "control_connections_retried": 800,
                  "reach:txtorcon.controller:TorProcessProtocol._maybe_notify_connected": 40000,
                  "reach:txtorcon.controller:TorProcessProtocol.processEnded": 25000,
                  "reach:txtorcon.controller:TorProcessProtocol._timeout_expired": 10000,
@@ -135,7 +140,7 @@ QUICK_OFFSETS = [1, len(STAMP), len(STAMP) + 1, len(STAMP) + 12, len(STAMP) + le
 
 GROUPS = [
     ("lst", ["lst"]), ("out", ["out"]), ("err", ["err"]),
-    ("c1", ["cok", "cfail"]), ("own", ["own+", "own-"]), ("rst", ["rst+", "rst-"]),
+    ("c1", ["cok", "cfail"]), ("own", ["own+", "own-", "own!"]), ("rst", ["rst+", "rst-", "rst!"]),
     ("plo", ["plo"]), ("p100", ["p100"]), ("tmo", ["tmo"]),
     ("exit", ["exit0", "exit1", "sig"]),
     ("lst2", ["lst2"]), ("c2", ["cok2", "cfail2"]),
@@ -143,6 +148,10 @@ GROUPS = [
 GROUP_OF = {a: g for g, al in GROUPS for a in al}
 ATOMS = [a for _, al in GROUPS for a in al]
 EXITS = ("exit0", "exit1", "sig")
+# the first control connection got past authentication and then failed while asking for ownership:
+# txtorcon may retry when the listener line shows up again
+POST_AUTH_FAILURES = ("own-", "own!", "rst-", "rst!")
+DROPS = ("own!", "rst!")
 
 
 def allowed(prefix, atom):
@@ -152,8 +161,10 @@ def allowed(prefix, atom):
         return False
     s = set(prefix)
     exited = any(a in s for a in EXITS)
-    connected = "cok" in s or "cok2" in s
-    retry_open = "lst2" in s and "cfail" in s and prefix.index("cfail") < prefix.index("lst2")
+    live1 = "cok" in s and not any(a in s for a in DROPS)        # first connection made and still up
+    connected = live1 or "cok2" in s
+    retry_open = "lst2" in s and any(a in s and prefix.index(a) < prefix.index("lst2")
+                                     for a in ("cfail",) + POST_AUTH_FAILURES)
     if exited:
         # a dead process writes nothing and answers nothing; a pending connect can still be refused
         if atom == "tmo":
@@ -171,11 +182,17 @@ def allowed(prefix, atom):
         return retry_open
     if g in ("plo", "p100"):
         return connected
+    # the ownership commands are held on the first connection that gets as far as sending them
+    on_conn = live1 if "cok" in s else "cok2" in s
     if g == "own":
         # TAKEOWNERSHIP precedes RESETCONF: once RESETCONF was answered, TAKEOWNERSHIP is not held any more
-        return connected and not any(GROUP_OF[a] == "rst" for a in prefix)
+        return on_conn and not any(GROUP_OF[a] == "rst" for a in prefix)
     if g == "rst":
-        return connected and "own-" not in s
+        if "cok" in s and "cok2" in s:
+            return True               # a retried connection sends both commands (again)
+        if "cok2" in s:               # the retry is the only connection that got through
+            return "own-" not in s and "own!" not in s
+        return live1 and "own-" not in s
     return False
 
 
@@ -194,6 +211,27 @@ def enumerate_schedules(maxlen, atoms=None):
                 rec(prefix)
                 prefix.pop()
     rec([])
+    return out
+
+
+def enumerate_retry_schedules(extra):
+    """schedules that go through a RETRIED control connection: the first attempt is refused, or
+    gets past authentication and fails at the ownership commands (5xx / dropped); the listener
+    line shows up again; the second attempt succeeds; then every causal continuation of up to
+    `extra` further stimuli"""
+    out = []
+
+    def rec(prefix, left):
+        out.append(tuple(prefix))
+        if not left:
+            return
+        for a in ATOMS:
+            if allowed(prefix, a):
+                prefix.append(a)
+                rec(prefix, left - 1)
+                prefix.pop()
+    for first in (["cfail"],) + tuple(["cok", f] for f in POST_AUTH_FAILURES):
+        rec(["lst"] + first + ["lst2", "cok2"], extra)
     return out
 
 
@@ -221,6 +259,7 @@ def variant(rnd, dd, **fixed):
         "exit_conn": rnd.choice(EXIT_CONN),
         "fail_exc": rnd.choice(FAILS),
         "wc": rnd.random() < 0.85,
+        "evt_order": rnd.choice(["old-first", "new-first"]),
         "split": None,
     }
     v.update(fixed)
@@ -283,7 +322,7 @@ class GatedTor(FakeTor):
 
     def __init__(self, hold=(), **kw):
         FakeTor.__init__(self, **kw)
-        self.hold = set(hold)
+        self.hold = hold if isinstance(hold, set) else set(hold)   # a set object may be shared by connections
         self.held = None
         self._stash = b""
 
@@ -317,9 +356,10 @@ class Tap(object):
     has been handed over (set *before* the completing chunk is delivered)"""
     P100 = re.compile(rb"650 STATUS_CLIENT NOTICE BOOTSTRAP PROGRESS=100 [^\r\n]*\r\n")
 
-    def __init__(self, run, proto):
+    def __init__(self, run, proto, link):
         self.run = run
         self.proto = proto
+        self.link = link
         self.rx = b""
 
     def makeConnection(self, transport):
@@ -331,6 +371,7 @@ class Tap(object):
             self.rx = (self.rx + data)[-400:]
             if self.P100.search(self.rx):
                 run.t100 = run.step_no
+                run.t100_link = self.link
                 run.timeout_before_100 = run.timeout_elapsed_at is not None
         self.proto.dataReceived(data)
 
@@ -378,8 +419,9 @@ class Run(object):
         self.launch_failed_due = None   # "exit" | "timeout": came before any delivered 100 %
         self.obs = []
         self.L = None
-        self.link = None
-        self.tor = None
+        self.links = []             # one Link (with its own GatedTor) per control connection made, in order
+        self.t100_link = None       # the connection over which the first complete PROGRESS=100 arrived
+        self.tor_kw = None
         self.proc = None
         self.pp = None
         self.custom_attempts = []   # Deferreds handed out by the custom connection creator
@@ -393,7 +435,7 @@ class Run(object):
         self.already_called_seen = 0
         self.signals_before = 0
         self.caller_dir_seen = False
-        self.link_exc_seen = 0
+        self.link_exc_seen = {}
         self.launch_fired_before_tmo = False
 
     # -- plumbing ---------------------------------------------------------------
@@ -415,10 +457,15 @@ class Run(object):
         return "no-terminal-event"
 
     def snapshot(self):
+        # ownership must have been requested on the authenticated connection that reported 100 %
         own = False
-        if self.link is not None and self.tor is not None and self.tor.authenticated:
-            own = b"\r\nTAKEOWNERSHIP\r\n" in self.link.transport.value()
-        return {"t100": self.t100, "own_written": own, "exited_at": self.exited_at,
+        conn = None
+        if self.t100_link is not None:
+            link = self.t100_link
+            conn = self.links.index(link)
+            own = link.tor.authenticated and b"\r\nTAKEOWNERSHIP\r\n" in link.transport.value()
+        return {"t100": self.t100, "t100_connection": conn, "connections": len(self.links),
+                "own_written": own, "exited_at": self.exited_at,
                 "timeout_elapsed_at": self.timeout_elapsed_at, "timeout_before_100": self.timeout_before_100,
                 "failed_due": self.launch_failed_due}
 
@@ -530,13 +577,28 @@ class Run(object):
             with open(os.path.join(self.data_dir, "state"), "w") as f:
                 f.write("# Tor state file\n")
         hold = set()
-        if any(a in self.sched for a in ("own+", "own-")):
+        if any(GROUP_OF.get(a) == "own" for a in self.sched):
             hold.add("TAKEOWNERSHIP")
-        if any(a in self.sched for a in ("rst+", "rst-")):
+        if any(GROUP_OF.get(a) == "rst" for a in self.sched):
             hold.add("RESETCONF")
-        self.tor = GatedTor(hold=hold, auth_methods=("COOKIE", "SAFECOOKIE"), cookie=cookie,
-                            cookiefile=cookiefile or "/nonexistent/control_auth_cookie", conf=conf)
-        self.tor.info["config/names"] = list(CONF_NAMES)
+        # every control connection gets its own FakeTor (authentication, subscriptions and the command
+        # log are per connection); configuration, cookie and the set of commands to hold are the process's
+        self.tor_kw = dict(hold=hold, auth_methods=("COOKIE", "SAFECOOKIE"), cookie=cookie,
+                           cookiefile=cookiefile or "/nonexistent/control_auth_cookie", conf=conf)
+
+    def new_tor(self):
+        tor = GatedTor(**self.tor_kw)
+        tor.info["config/names"] = list(CONF_NAMES)
+        return tor
+
+    def live_links(self):
+        return [l for l in self.links if not l.lost]
+
+    def held_link(self, word):
+        for l in self.live_links():
+            if l.tor.held is not None and l.tor.held.upper().startswith(word):
+                return l
+        return None
 
     def creator(self):
         d = defer.Deferred()
@@ -562,15 +624,19 @@ class Run(object):
     def connect_ok(self, att):
         import txtorcon
         chunk = self.case["chunk"]
-        self.link = Link(None, self.tor, chunking=(chunk,) if chunk else (1 << 30,))
+        link = Link(None, self.new_tor(), chunking=(chunk,) if chunk else (1 << 30,))
+        self.links.append(link)
+        self.rec.count("control_connections_made")
+        if len(self.links) > 1:
+            self.rec.count("control_connections_retried")
         if self.case["creator"] == "custom":
             proto = txtorcon.TorProtocolFactory().buildProtocol(None)
-            self.link.proto = Tap(self, proto)
-            self.link.connect()
+            link.proto = Tap(self, proto, link)
+            link.connect()
             att.callback(proto)
         else:
-            proto = att.succeed(self.link.transport)
-            self.link.proto = Tap(self, proto)
+            proto = att.succeed(link.transport)
+            link.proto = Tap(self, proto, link)
             # makeConnection already happened inside succeed(); Tap only forwards from now on
 
     def connect_fail(self, att):
@@ -598,9 +664,8 @@ class Run(object):
 
     def apply(self, atom):
         """deliver one stimulus; False if it is not applicable in the current state"""
-        proc, tor = self.proc, self.tor
+        proc = self.proc
         live = proc is not None and proc.alive
-        link_up = self.link is not None and not self.link.lost
         if atom in ("lst", "lst2"):
             if not live:
                 return False
@@ -620,7 +685,7 @@ class Run(object):
                     self.escaped.append(("stderr", e))
         elif atom in ("cok", "cok2"):
             att = self.pending_attempt()
-            if att is None or not live or self.link is not None:
+            if att is None or not live:
                 return False
             self.guard(atom, self.connect_ok, att)
         elif atom in ("cfail", "cfail2"):
@@ -628,23 +693,42 @@ class Run(object):
             if att is None:
                 return False
             self.guard(atom, self.connect_fail, att)
-        elif atom in ("own+", "own-", "rst+", "rst-"):
+        elif atom in ("own+", "own-", "own!", "rst+", "rst-", "rst!"):
             word = "TAKEOWNERSHIP" if atom.startswith("own") else "RESETCONF"
-            if not link_up or not live or tor.held is None or not tor.held.upper().startswith(word):
+            link = self.held_link(word) if live else None
+            if link is None:
                 return False
+            tor = link.tor
             if atom.endswith("+"):
                 tor.release()
+            elif atom.endswith("!"):
+                # the control connection goes away while the command is outstanding; Tor keeps running
+                tor.closed = True
+                link.lose(failure.Failure(error.ConnectionLost()))
+                self.rec.count("control_connections_dropped_mid_ownership")
             elif word == "TAKEOWNERSHIP":
                 tor.release((510, [("end", 'Unrecognized command "TAKEOWNERSHIP"')]))
             else:
                 tor.release((552, [("end", "Unrecognized option: Unknown option '__OwningControllerProcess'.  Failing.")]))
         elif atom in ("plo", "p100"):
-            if not link_up or not live:
+            if not live:
                 return False
             n = 100 if atom == "p100" else self.case["plo"]
             tag, summ = ("done", "Done") if n == 100 else ("loading_descriptors", "Loading relay descriptors")
-            if not tor.emit("STATUS_CLIENT", 'NOTICE BOOTSTRAP PROGRESS=%d TAG=%s SUMMARY="%s"' % (n, tag, summ)):
+            text = 'NOTICE BOOTSTRAP PROGRESS=%d TAG=%s SUMMARY="%s"' % (n, tag, summ)
+            # Tor reports on every control connection that subscribed
+            links = self.live_links()
+            if self.case.get("evt_order") == "new-first":
+                links.reverse()
+            sent = 0
+            for link in links:
+                if link.tor.emit("STATUS_CLIENT", text):
+                    sent += 1
+                    link.pump()
+            if not sent:
                 return False
+            if sent > 1:
+                self.rec.count("events_on_two_connections")
         elif atom == "tmo":
             first = self.timeout_elapsed_at is None
             self.signals_before = len(proc.signals) if proc else 0
@@ -675,15 +759,15 @@ class Run(object):
                 self.drop_link()
         else:
             raise ValueError(atom)
-        if self.link is not None and not self.link.lost:
-            self.link.pump()
+        for link in self.live_links():
+            link.pump()
         self.guard("flush", self.reactor.flush)
         return True
 
     def drop_link(self):
-        if self.link is not None and not self.link.lost:
-            self.tor.closed = True
-            self.link.lose(failure.Failure(error.ConnectionDone()))
+        for link in self.live_links():
+            link.tor.closed = True
+            link.lose(failure.Failure(error.ConnectionDone()))
 
     # -- oracle ---------------------------------------------------------------------------
     def request_wc(self):
@@ -727,12 +811,13 @@ class Run(object):
             if e[0] == "AlreadyCalledError":
                 self.already_called_seen += 1
                 self.escaped.append(("logged", defer.AlreadyCalledError(e[1])))
-        if self.link is not None and len(self.link.exceptions) > self.link_exc_seen:
-            for (what, text) in self.link.exceptions[self.link_exc_seen:]:
+        for i, link in enumerate(self.links):
+            seen = self.link_exc_seen.get(i, 0)
+            for (what, text) in link.exceptions[seen:]:
                 # raised out of dataReceived / connectionLost of the control protocol
                 e = defer.AlreadyCalledError(text) if "AlreadyCalledError" in text else RuntimeError(text)
                 self.escaped.append(("control-" + what, e))
-            self.link_exc_seen = len(self.link.exceptions)
+            self.link_exc_seen[i] = len(link.exceptions)
         for (what, e) in self.escaped:
             rec.seen("escaped_exceptions", "%s: %s" % (type(e).__name__, PATHS.sub("<path>", str(e))[:60]))
             rec.count("escaped_exceptions")
@@ -759,9 +844,12 @@ class Run(object):
                         self.V("launch-success-before-bootstrap-100", ocls, {"snapshot": snap, "atom": atom})
                     elif snap["timeout_before_100"]:
                         self.V("launch-success-after-timeout", ocls, {"snapshot": snap, "atom": atom})
-                    if not snap["own_written"]:
-                        self.V("launch-success-without-takeownership", ocls,
-                               {"snapshot": snap, "lines": list(self.tor.lines)[-6:] if self.tor else None})
+                    if snap["t100"] is not None and not snap["own_written"]:
+                        # class: which connection reported 100 % without having been asked for ownership
+                        cls = ocls + ("/retried-connection" if snap["t100_connection"] else "")
+                        self.V("launch-success-without-takeownership", cls,
+                               {"snapshot": snap,
+                                "commands_per_connection": [list(l.tor.lines)[-5:] for l in self.links]})
             else:
                 rec.count("when_connected_outcomes_judged")
                 if o.ok:
@@ -895,6 +983,13 @@ def shard_cases(spec):
                     continue
                 rnd = gen.rnd_for(spec["seed"], PROPERTY, "split", i, off)
                 yield variant(rnd, rnd.choice(["temp", "caller"]), sched=list(s), split=off, ctl="tcp")
+        # the same shards also carry the schedules through a retried control connection
+        for i, s in enumerate(enumerate_retry_schedules(spec.get("retry_extra", 0)) if "retry_extra" in spec else ()):
+            if i % n != k:
+                continue
+            rnd = gen.rnd_for(spec["seed"], PROPERTY, "retry", i)
+            for dd in ("temp", "caller"):
+                yield variant(rnd, dd, sched=list(s))
 
 
 def run_shard(spec, rec):
@@ -919,6 +1014,9 @@ def run_shard(spec, rec):
             rec.enumerated("listener output split at %s x all causal permutations of length %d..%d containing lst" % (
                 "every offset 1..%d" % max(offs) if offs == list(range(1, max(offs) + 1))
                 else "offsets %s" % ",".join(str(o) for o in offs), spec.get("minlen", 1), spec["maxlen"]))
+            if "retry_extra" in spec:
+                rec.enumerated("retried control connection (refused / 5xx / dropped at TAKEOWNERSHIP or RESETCONF, then "
+                               "lst2 + cok2) followed by all causal continuations of <= %d stimuli" % spec["retry_extra"])
     finally:
         tempfile.tempdir = old
         shutil.rmtree(scratch, ignore_errors=True)
@@ -942,7 +1040,7 @@ def plan(tier, seed):
         for k in range(14):
             specs.append({"mode": "perm", "maxlen": 6, "k": k, "of": 14})
         for k in range(2):
-            specs.append({"mode": "split", "maxlen": 4, "offsets": QUICK_OFFSETS, "k": k, "of": 2})
+            specs.append({"mode": "split", "maxlen": 4, "offsets": QUICK_OFFSETS, "k": k, "of": 2, "retry_extra": 2})
     else:
         for k in range(32):
             specs.append({"mode": "perm", "maxlen": 7, "k": k, "of": 32, "timeout_s": 3000})
@@ -953,5 +1051,5 @@ def plan(tier, seed):
                           "k": k, "of": 12, "timeout_s": 3000})
         for k in range(4):
             specs.append({"mode": "split", "maxlen": 5, "minlen": 5, "offsets": BOUNDARY_OFFSETS, "k": k, "of": 4,
-                          "timeout_s": 3000})
+                          "retry_extra": 3, "timeout_s": 3000})
     return specs
